@@ -19,7 +19,7 @@ pub struct Unit {
 
 pub const HOSTILE: [&str; 8] = ["plain", "it's", "$(touch CANARY)", "`touch CANARY`", ";touch CANARY", "a\"b", "é ü", "x'; touch CANARY; echo '"];
 pub const TYPED: [&str; 16] = ["", "-", "--", "'", "\"", "$(touch CANARY)", "`touch CANARY`", ";touch CANARY", "a b", "a\nb", "\\", "*", "é", "--zz;x", "--beta=$(touch CANARY)", "--beta="];
-pub const SHAPES: usize = 9;
+pub const SHAPES: usize = 11;
 
 const RAW_BASH: &str = "echo CALL RAWBASH";
 const RAW_ZSH: &str = "echo CALL RAWZSH";
@@ -48,6 +48,17 @@ pub fn shape(k: usize, text: &str) -> Opts {
             P::Seq(vec![sw, P::Alt(vec![P::cmd("cmd", inner.clone()), P::cmd("cmx", inner)]).opt()])
         }
         8 => P::Seq(vec![sw, arg(Some(CompK::EchoOnly)).many(), P::Complete(pos.bx(), CompK::Fixed(vec![(text.to_string(), Some(text.to_string())), ("second".into(), None)]), Some(text.to_string())).opt()]),
+        // two completers of the same kind with different payloads for the same word
+        9 => {
+            let j = P::CompleteShell(P::Pos { ty: Ty::Str, strict: Strict::Any, metavar: "JSON".into(), help: None }.bx(), ShellK::File(Some("*.json".into())));
+            let t = P::CompleteShell(P::Pos { ty: Ty::Str, strict: Strict::Any, metavar: "TOML".into(), help: None }.bx(), ShellK::File(Some(text.replace(' ', "_"))));
+            P::Seq(vec![sw, P::Alt(vec![P::Map(j.bx(), "j".into()), P::Map(t.bx(), "t".into())]).opt()])
+        }
+        10 => {
+            let d1 = P::CompleteShell(P::Pos { ty: Ty::Str, strict: Strict::Any, metavar: "D1".into(), help: None }.bx(), ShellK::Dir(None));
+            let d2 = P::CompleteShell(P::Pos { ty: Ty::Str, strict: Strict::Any, metavar: "D2".into(), help: None }.bx(), ShellK::Dir(Some("*.d".into())));
+            P::Seq(vec![P::Alt(vec![P::Map(d1.bx(), "a".into()), P::Map(d2.bx(), "b".into())]).opt()])
+        }
         _ => unreachable!(),
     };
     Opts::new(p)
@@ -655,10 +666,10 @@ impl Check for C15 {
         }
     }
     fn rule(&self) -> String {
-        "definitions = 9 shapes (switch + argument with echoing completer and group + positional with complete_shell File; group_help + File with mask; positional completer echoing the typed word; Dir; Dir with mask; Raw; Nothing; sub-commands with descriptions; fixed-list completer with descriptions) x 8 hostile strings in every help / group / description / mask slot (quotes, $(..), backticks, ;, double quote, non-ASCII, quote-breaking payload); lines = {nothing, -a, --beta, --beta=v, cmd ..} + typed word from 23 words (empty, -, --, quotes, $(touch CANARY), backticks, ;, space, line break, backslash, glob, non-ASCII, --zz;x, --beta=$(..), prefixes); revisions 1/7/8/9 with and without an application name; (a) bash/zsh text lexes into directives of the shell's allowed shapes with every data word single-quoted (independent POSIX quote lexer), fish/elvish one candidate per line; (b) one-to-one correspondence with the candidates and shell completers computed at revision 0 for the same line; (c) every bash text is sourced in /usr/bin/bash with stubbed _init_completion/_filedir inside a scratch directory: COMPREPLY and the recorded calls equal (b), no stderr, no CANARY file; zsh/fish/elvish are not installed: decided by (a)+(b) only".into()
+        "definitions = 11 shapes (two shell completers of the same kind with different masks alive for one word; switch + argument with echoing completer and group + positional with complete_shell File; group_help + File with mask; positional completer echoing the typed word; Dir; Dir with mask; Raw; Nothing; sub-commands with descriptions; fixed-list completer with descriptions) x 8 hostile strings in every help / group / description / mask slot (quotes, $(..), backticks, ;, double quote, non-ASCII, quote-breaking payload); lines = {nothing, -a, --beta, --beta=v, cmd ..} + typed word from 23 words (empty, -, --, quotes, $(touch CANARY), backticks, ;, space, line break, backslash, glob, non-ASCII, --zz;x, --beta=$(..), prefixes); revisions 1/7/8/9 with and without an application name; (a) bash/zsh text lexes into directives of the shell's allowed shapes with every data word single-quoted (independent POSIX quote lexer), fish/elvish one candidate per line; (b) one-to-one correspondence with the candidates and shell completers computed at revision 0 for the same line; (c) every bash text is sourced in /usr/bin/bash with stubbed _init_completion/_filedir inside a scratch directory: COMPREPLY and the recorded calls equal (b), no stderr, no CANARY file; zsh/fish/elvish are not installed: decided by (a)+(b) only".into()
     }
     fn bounds(&self, _tier: Tier) -> Value {
-        json!({"shapes": 9, "hostile_strings": 8, "lines_per_definition": "4-6 typed parts x 23 typed words", "shells": "bash (lexed + executed), zsh / fish / elvish (lexed)"})
+        json!({"shapes": 11, "hostile_strings": 8, "lines_per_definition": "4-6 typed parts x 23 typed words", "shells": "bash (lexed + executed), zsh / fish / elvish (lexed)"})
     }
     fn assumptions(&self) -> Vec<String> {
         vec!["the candidate set of revision 0 is taken as given here (C14 judges it)".into(), "zsh, fish and elvish are not installed in this sandbox; their output is lexed, not executed".into()]
